@@ -21,6 +21,11 @@ pub struct C08Case {
     pub alg: Alg,
     /// deviations the generator applied (informational, used for labels)
     pub deviations: Vec<String>,
+    /// Some((aud, nonce)): the payload confirms the EC test holder key in a visible `cnf`, the
+    /// harness attaches a valid key-binding JWT and the verifier is asked to check it. The
+    /// disclosure processing rules are the same with and without key binding.
+    #[serde(default)]
+    pub kb: Option<(String, String)>,
 }
 
 pub fn check(case: &C08Case, st: &mut Stats) -> Verdict {
@@ -31,7 +36,18 @@ pub fn check(case: &C08Case, st: &mut Stats) -> Verdict {
         st.label(&format!("dev:{}", d));
     }
     let jwt = sut::sign_jwt(&json!({"alg": case.alg.name()}), &case.payload, case.alg, KeyId::Primary);
-    let parts = Parts { jwt, disclosures: case.disclosures.clone(), kb: None };
+    let kb_jwt = case.kb.as_ref().map(|(aud, nonce)| {
+        st.label("key_binding_checked");
+        let mut sd = jwt.clone();
+        for d in &case.disclosures {
+            sd.push('~');
+            sd.push_str(d);
+        }
+        sd.push('~');
+        let p = json!({"nonce": nonce, "aud": aud, "iat": 1_700_000_000u64, "sd_hash": crate::codec::digest(&sd)});
+        sut::sign_with_key(&json!({"alg": "ES256", "typ": "kb+jwt"}).to_string(), &p.to_string(), Alg::ES256, &crate::keys::HolderKey::Ec.enc().unwrap())
+    });
+    let parts = Parts { jwt, disclosures: case.disclosures.clone(), kb: kb_jwt };
     let text = match render(&parts, case.fmt) {
         Some(t) => t,
         None => {
@@ -40,7 +56,7 @@ pub fn check(case: &C08Case, st: &mut Stats) -> Verdict {
         }
     };
     let model = process(payload, &case.disclosures);
-    let out = sut::verify(&text, case.fmt, case.alg, None);
+    let out = sut::verify(&text, case.fmt, case.alg, case.kb.as_ref().map(|(a, n)| (a.as_str(), n.as_str())));
     let show = || {
         let decoded: Vec<String> = case
             .disclosures
@@ -49,6 +65,17 @@ pub fn check(case: &C08Case, st: &mut Stats) -> Verdict {
             .collect();
         format!("  payload: {}\n  disclosures (decoded): {:?}\n  deviations applied by the generator: {:?}\n  presented: {}", case.payload, decoded, case.deviations, sut::clip(&text, 4000))
     };
+    if case.kb.is_some() {
+        st.label(&format!(
+            "with_key_binding:{}/{}",
+            match &model {
+                SpecOutcome::MustReject(_) => "MustReject",
+                SpecOutcome::Claims(_) => "Claims",
+                SpecOutcome::Ambiguous(_) => "ambiguous",
+            },
+            out.kind()
+        ));
+    }
     match (&model, out) {
         (_, Out::Panic(p)) => Err(Failure::new(panic_sig("SDJWTVerifier::new", &p), format!("verifier panicked on a validly signed structure: {}\n{}", p, show()))),
         (SpecOutcome::MustReject(_), Out::Err(_)) => {
